@@ -752,7 +752,10 @@ func genSign(t *rapid.T) sigCase {
 		owner = zone.Clone()
 		wild = false
 	}
-	if isWild(owner) && len(owner) == 1 && pbt.Known(findRootWild) {
+	if len(owner) == 1 && owner[0][0] == '*' && pbt.Known(findRootWild) {
+		// the class of the finding: Sign / Verify work with Labels = 0 for a non-root owner. Sign gets
+		// there for every single-label owner whose text starts with "*" ("*." itself, but also "*a."
+		// or "*\.."), because it takes any such owner for a wildcard
 		pbt.Excluded(findRootWild)
 		owner = wm.Name{[]byte("w")}
 		wild = false
